@@ -125,7 +125,7 @@ def gmres( LinOp, b, x0, N, max_iterations, threshold):
         
         tme = datetime.datetime.now()
         for i in range(k+1):
-            H[i,k] = tn.dot(q.squeeze(),Q[:,i])
+            H[i,k] = tn.vdot(Q[:,i],q.squeeze()) # <Q_i, q>: conjugate-linear in the basis vector (complex data)
             q = q - tn.reshape(H[i,k]*Q[:,i],[-1,1])
             # H[i,k] = tn.sum(q*Qs[i])
             # q = q - H[i,k]*Qs[i]
@@ -148,7 +148,7 @@ def gmres( LinOp, b, x0, N, max_iterations, threshold):
         tme = datetime.datetime.now() - tme
         # print('time 3',tme,' time 32', tme2)
         
-        beta[k+1] = -sn[k]*beta[k]
+        beta[k+1] = -tn.conj(sn[k])*beta[k]
         beta[k] = cs[k]*beta[k]
         error = tn.abs(beta[k+1]) / b_norm
         err.append(error)
@@ -172,7 +172,7 @@ def apply_givens_rotation(h, cs, sn, k):
     sn = sn.cpu().numpy()
     for i in range(k-1):
         temp   =  cs[i]* h[i] + sn[i] * h[i+1]
-        h[i+1] = -sn[i] * h[i] + cs[i] * h[i+1]
+        h[i+1] = -np.conj(sn[i]) * h[i] + cs[i] * h[i+1]
         h[i]   = temp
   
     cs_k, sn_k = givens_rotation(h[k-1], h[k])
@@ -184,6 +184,12 @@ def apply_givens_rotation(h, cs, sn, k):
 
 def givens_rotation(v1,v2):
    
+    if np.iscomplexobj(v1) or np.iscomplexobj(v2):
+        # unitary rotation [c s; -conj(s) c] with real c that annihilates v2
+        den = np.sqrt(np.abs(v1)**2+np.abs(v2)**2)
+        if np.abs(v1) == 0:
+            return 0.0*v1, np.conj(v2)/den
+        return np.abs(v1)/den + 0.0*v1, (v1/np.abs(v1))*np.conj(v2)/den
     den = np.sqrt(v1**2+v2**2)
     return v1/den, v2/den
 
